@@ -1,6 +1,10 @@
 mod c16;
 
 fn main() {
+    let args: Vec<String> = std::env::args().collect();
+    if args.get(1).map(|s| s.as_str()) == Some("c17-child") {
+        std::process::exit(vwincon::c17::child(&args[2..]));
+    }
     let mut checks = vcore::lean_checks();
     checks.push(vcore::CheckDef { name: "c16", run: c16::run, replay: c16::replay });
     checks.push(vcore::CheckDef { name: "c17", run: vwincon::c17::run, replay: vwincon::c17::replay });
